@@ -37,8 +37,9 @@ class SetEncoder(encoder.SetEncoder):
                     raise error.PyAsn1Error(
                         '%s components for Choice at %r' % (len(names) and 'Multiple ' or 'None ', component))
 
-                # TODO: support nested CHOICE ordering
-                return asn1Spec[names[0]].tagSet
+                # the chosen alternative may be an untagged CHOICE again
+                return SetEncoder._componentSortKey(
+                    (component[names[0]], asn1Spec[names[0]]))
 
         else:
             return compType.tagSet
